@@ -14,14 +14,22 @@ theorem factory_only_owner {w w' : World} {s : Nat} {funds : List (Nat × Nat)} 
   Halo.C14.factory_only_owner h
 
 /-- ownership follows a successful configuration update … -/
-theorem ownership_follows {w w' : World} {s o : Nat} {funds : List (Nat × Nat)}
-    (h : facExec w s funds (.updateConfig (some o)) = .ok w') : w'.owner = o :=
+theorem ownership_follows {w w' : World} {s o : Nat} {funds : List (Nat × Nat)} {tc pc : Option Nat}
+    (h : facExec w s funds (.updateConfig (some o) tc pc) = .ok w') : w'.owner = o :=
   Halo.C14.ownership_follows h
+
+/-- every field of a successful configuration update (owner, cw20 code id, pair code id) replaces the stored
+one exactly when given, and is kept otherwise -/
+theorem config_follows {w w' : World} {s : Nat} {funds : List (Nat × Nat)} {o tc pc : Option Nat}
+    (h : facExec w s funds (.updateConfig o tc pc) = .ok w') :
+    w'.owner = o.getD w.owner ∧ w'.tokenCode = tc.getD w.tokenCode ∧ w'.pairCode = pc.getD w.pairCode :=
+  Halo.C14.config_follows h
 
 /-- … and nothing else ever changes the owner -/
 theorem owner_changes_only_by_owner {name : Asset → String} {w w' : World} {op : Op} {out : Out}
     (h : exec name w op = .ok (w', out)) :
-    w'.owner = w.owner ∨ ∃ s f o, op = .factory s f (.updateConfig (some o)) ∧ s = w.owner ∧ w'.owner = o :=
+    w'.owner = w.owner ∨
+      ∃ s f o tc pc, op = .factory s f (.updateConfig (some o) tc pc) ∧ s = w.owner ∧ w'.owner = o :=
   Halo.C14.owner_changes_only_by_owner h
 
 /-- a pair accepts a decimals update only from its factory -/
